@@ -192,6 +192,22 @@ where
 	}
 }
 
+/// Verification hook (see `crate::verif`): parses at most `max_events` events,
+/// then drops the parser.
+#[cfg(feature = "verif")]
+pub(super) fn verif_events<R: Read>(reader: R, max_events: usize) -> io::Result<usize> {
+	let mut parser = Parser::new(ChunkReader::new(reader));
+	let mut count = 0;
+	while count < max_events {
+		let event = parser.next_event()?;
+		count += 1;
+		if event.event_type() == YAML_STREAM_END_EVENT {
+			break;
+		}
+	}
+	Ok(count)
+}
+
 #[cfg(test)]
 mod tests {
 	use super::*;
